@@ -5,6 +5,8 @@ from .. import common, corpus, suite_translate as st, gen_table as G
 THEOREMS = ["Lou.C03.iter_mu", "Lou.C03.run_bound", "Lou.C03.pass_loop_bound", "Lou.C03.run_more_fuel",
             "Lou.C03.once_per_position", "Lou.C03.pingpong_not_monotone", "Lou.C03.pingpong_unbounded",
             "Lou.C06Pass.fwdStage_total", "Lou.C06Pass.backStage_total", "Lou.C06Pass.fwdTest_bounds", "Lou.C06Pass.backTest_bounds",
+            "Lou.FwdTerm.step_adv", "Lou.FwdTerm.loop_fuel", "Lou.FwdTerm.compile_translate_fuel",
+            "Lou.BackTerm.step_adv", "Lou.BackTerm.loop_fuel", "Lou.BackTerm.translate_fuel",
 ]
 
 CLAIM = dict(
